@@ -5,6 +5,7 @@ import (
 	"go/types"
 	"math/big"
 	"path/filepath"
+	"strings"
 
 	"golang.org/x/tools/go/ssa"
 
@@ -264,14 +265,30 @@ func c04Ladder(c *Ctx, prog *load.Program, name string) int {
 // c04Table: newProjectivePointMultTable(p)[j] = (j+1)*p.
 func c04Table(c *Ctx, prog *load.Program) {
 	set := models.NewSet().Merge(models.Field()).Merge(models.Helpers()).Merge(models.Scalar()).Merge(models.PointInternal(nil))
-	r := RunFn(prog, set, models.Mod+".newProjectivePointMultTable", nil)
-	pos := PosOf(prog, r.Fn)
 	key := "table@" + prog.Config.Name
+	builder, inPlace := findTableBuilder(prog)
+	if builder == nil {
+		c.R.Unknown("C04-6", key, "", "no routine that builds a projectivePointMultTable from a point was found (neither newProjectivePointMultTable nor a method of the table type taking a *Point)")
+		return
+	}
+	r := RunFn(prog, set, builder.String(), &RunOpts{Args: namedFor(builder, map[string]string{"*Point": "p"})})
+	pos := PosOf(prog, r.Fn)
 	if !r.OK() {
 		c.R.Unknown("C04-6", key, pos, r.Problem())
 		return
 	}
-	a, _ := r.Result(0).(*absint.Agg)
+	var a *absint.Agg
+	if inPlace {
+		// the table is filled through the receiver
+		if tp, ok := r.Args[0].(*absint.Ptr); ok {
+			a = &absint.Agg{}
+			for j := int64(0); j < 15; j++ {
+				a.Elems = append(a.Elems, r.Final().Resolve(r.Ex.LoadLeaf(r.Final(), r.Ex.ElemPtr(tp, j))))
+			}
+		}
+	} else {
+		a, _ = r.Result(0).(*absint.Agg)
+	}
 	if a == nil || len(a.Elems) != 15 {
 		c.R.Unknown("C04-6", key, pos, "result is not a 15-entry table")
 		return
@@ -285,6 +302,49 @@ func c04Table(c *Ctx, prog *load.Program) {
 		}
 	}
 	c.R.OK("C04-6", key, pos, "tbl[j] = (j+1)*P for j = 0..14")
+}
+
+// findTableBuilder locates the routine that fills a projectivePointMultTable from a point: the function
+// newProjectivePointMultTable(p) returning the table by value, or (inPlace) a method of the table type with a single
+// *Point parameter.
+func findTableBuilder(prog *load.Program) (fn *ssa.Function, inPlace bool) {
+	if f := absint.FindFunc(prog.SSA, models.Mod+".newProjectivePointMultTable"); f != nil {
+		return f, false
+	}
+	var cands []*ssa.Function
+	for _, f := range ModuleFuncs(prog) {
+		if f.Signature == nil || f.Signature.Recv() == nil || f.Parent() != nil || f.Signature.Params().Len() != 1 {
+			continue
+		}
+		if recvNamed(f) != models.Mod+".projectivePointMultTable" || !isNamedPtr(f.Signature.Params().At(0).Type(), models.PointType) {
+			continue
+		}
+		if f.Signature.Results().Len() > 1 {
+			continue
+		}
+		cands = append(cands, f)
+	}
+	if len(cands) == 1 {
+		return cands[0], true
+	}
+	return nil, false
+}
+
+// namedFor gives the parameters of fn whose type (printed without the package path) is a key of names that name.
+func namedFor(fn *ssa.Function, names map[string]string) []ArgSpec {
+	out := make([]ArgSpec, len(fn.Params))
+	for i, p := range fn.Params {
+		out[i] = ArgSpec{Alias: -1, SameSymsAs: -1}
+		t := p.Type().String()
+		for k, v := range names {
+			if strings.HasSuffix(t, strings.TrimPrefix(k, "*")) && strings.HasPrefix(t, "*") == strings.HasPrefix(k, "*") {
+				if i > 0 || fn.Signature.Recv() == nil {
+					out[i].Name = v
+				}
+			}
+		}
+	}
+	return out
 }
 
 // c04Lookup: SelectAndAdd / SelectAndAddVartime add entry idx-1 (nothing for idx 0), for every idx 0..15.
